@@ -160,4 +160,71 @@ class C03a(Obligation):
                       'returned iff: of this scope, before the use, reachable, not shadowed by a later certain definition')
 
 
-OBLIGATIONS = [C03a, C03b]
+from jedi.inference.value import function as jfunction  # noqa: E402
+
+
+class Ctxt:
+    _pysym_holder = True
+
+    def __init__(self, kind, tag, parent):
+        self.kind, self.tag, self.parent_context = kind, tag, parent
+        self.inference_state = None
+
+    def is_class(self):
+        return self.kind == 'class'
+
+    def is_instance(self):
+        return self.kind == 'instance'
+
+
+MADE = []
+
+
+class FakeFunctionValue:
+    def __new__(cls, state, parent_context=None, tree_node=None):
+        MADE.append(('function', parent_context))
+        return 'FUNCTION'
+
+
+class C03c(Obligation):
+    id = 'C03.c'
+    title = 'class-body rule: names used in a method are looked up from the nearest enclosing NON-class scope'
+    pattern = 'P3 (context chain of symbolic kinds; value construction is a recording stub)'
+    assumptions = (
+        'the defining context chain has <=3 levels of kind class / instance / function (symbolic) above a module; '
+        'FunctionValue/MethodValue construction and overload discovery are stubs',
+    )
+
+    def configs(self, tier):
+        return [dict(depth=d) for d in (1, 2, 3)]
+
+    def scenario(self, ctx, cfg):
+        module = Ctxt('module', 'module', None)
+        chain = [module]
+        kinds = []
+        for i in range(cfg['depth']):
+            k = ctx.oneof('level%d_kind' % i, ('class', 'instance', 'function'))
+            kinds.append(k)
+            chain.append(Ctxt(k, 'level%d' % i, chain[-1]))
+        ctx.int('unused')
+        inner = chain[-1]
+        made = MADE
+        del made[:]
+        ctx.patch(jfunction, '_find_overload_functions', lambda context, node: [])
+        ctx.patch(jfunction, 'MethodValue',
+                  lambda state, class_context, parent_context=None, tree_node=None: made.append(('method', parent_context)) or 'METHOD')
+        raw_from_context = jfunction.FunctionValue.from_context.__func__
+        ctx.force(raw_from_context)
+        out = ctx.call(raw_from_context, FakeFunctionValue, inner, Obj(tag='funcdef'))
+        ctx.check(out.exc is None and len(made) == 1, 'one function value is created')
+        if out.exc is not None or len(made) != 1:
+            return
+        kind, parent = made[0]
+        expected = inner
+        while expected.kind in ('class', 'instance'):
+            expected = expected.parent_context
+        ctx.check(parent is expected, 'the lookup parent skips EVERY enclosing class body (Python never consults them)')
+        ctx.check((kind == 'method') == (inner.kind == 'class'), 'defined directly in a class body => a method')
+
+
+OBLIGATIONS = [C03a, C03b, C03c]
